@@ -1003,6 +1003,8 @@ func genC16watcher(r *Rand, p *Plan, tier string) {
 				text = PickOf(r, "{{{ not: [valid", "users: [}\n", "[1,2", "%%%")
 			case 4:
 				st.NoEvent = true
+			case 5:
+				st.OldMtime = true
 			}
 		}
 		p.Scen.RawDocs = append(p.Scen.RawDocs, text)
@@ -1055,6 +1057,10 @@ func genC16(r *Rand, p *Plan, tier string) {
 		case 4:
 			st.Tear = PickOf(r, "empty", "garbage")
 			st.TearN = r.Intn(1000)
+		case 5, 6:
+			// a file put in place with an old timestamp (restored backup)
+			st.Via = "load"
+			st.OldMtime = true
 		}
 		p.Scen.RawDocs = append(p.Scen.RawDocs, text)
 		ls.Steps = append(ls.Steps, st)
